@@ -91,6 +91,14 @@ class Ctx:
             self._eng[cfg] = Engine(self.prog(cfg))
         return self._eng[cfg]
 
+    def zone(self, cfg='prod-all'):
+        if not hasattr(self, '_za'):
+            self._za = {}
+        if cfg not in self._za:
+            from census import ZoneAnalysis
+            self._za[cfg] = ZoneAnalysis(self.eng(cfg))
+        return self._za[cfg]
+
     def gates(self, cfg='prod-all'):
         if cfg not in self._ga:
             self._ga[cfg] = GateAnalysis(self.eng(cfg))
